@@ -336,6 +336,26 @@ func ModelSyncMapRange(m *sync.Map, f func(key, value any) bool) {
 	}
 }
 
+func ModelSyncMapCompareAndDelete(m *sync.Map, key, old any) bool {
+	sm := smap(m)
+	v, ok := sm.vals[key]
+	if !ok || v != old {
+		return false
+	}
+	delete(sm.vals, key)
+	return true
+}
+
+func ModelSyncMapCompareAndSwap(m *sync.Map, key, old, new any) bool {
+	sm := smap(m)
+	v, ok := sm.vals[key]
+	if !ok || v != old {
+		return false
+	}
+	sm.vals[key] = new
+	return true
+}
+
 func ModelSyncMapClear(m *sync.Map) {
 	sm := smap(m)
 	sm.keys = nil
